@@ -25,6 +25,11 @@ def extra_label(labels, kind):
 def labels_of(kind, n, order="inc"):
     """order: 'inc' | 'dec' | 'shuf' (a fixed derangement-like shuffle) | tuple permutation"""
     base = BASE[kind][:n]
+    if isinstance(order, str) and order.startswith("big"):
+        # the same label pattern at a large magnitude (Julian days / dates written YYYYMMDD): single-precision casts and relative
+        # tolerances that are harmless on labels of order 1-100 are not harmless here
+        off = {"i": 20200100, "f": 2451545.0}[kind]
+        return [l + off for l in labels_of(kind, n, order[3:] or "inc")]
     if order == "inc":
         return list(base)
     if order == "dec":
